@@ -76,7 +76,7 @@ func main() {
 	maxSteps := flag.Int64("max-steps", 5000000, "SSA instruction bound per path")
 	timeout := flag.Int("timeout", 600, "seconds per harness")
 	models := flag.Int("models", 20, "completed paths sampled with a model (native replay)")
-	solver := flag.String("solver", "lib timeout=60000", "solver: `lib [opt=val ...]` = in-process libz3, or an external command such as `z3 -in -t:20000`")
+	solver := flag.String("solver", "lib timeout=120000", "solver: `lib [opt=val ...]` = in-process libz3, or an external command such as `z3 -in -t:20000`")
 	known := flag.String("known", "/verif/known_findings.json", "known findings file")
 	seed := flag.Int64("seed", 0, "seed")
 	verbose := flag.Bool("v", false, "verbose")
